@@ -45,6 +45,9 @@ func win(a []byte) []byte { return a[2:] }
 func bad6(a []byte) byte { b := win(a); a[3] = 9; return b[1] }
 func ok6(a []byte) byte  { b := win(a); return b[1] + a[3] }
 func bad7(a []byte, c []byte) []byte { b := a[:2]; n := copy(a, c); if n > 0 { return b }; return nil }
+type holder struct{ raw []byte }
+func bad8(m *holder, n int) []byte { x := make([]byte, n); y := x[1:]; y[0] = 7; m.raw = x; return m.raw }
+func ok8(m *holder, n int) []byte  { x := make([]byte, n); x[1] = 7; m.raw = x; return m.raw }
 `
 
 func selfTest() int {
@@ -59,7 +62,7 @@ func selfTest() int {
 		fmt.Fprintln(os.Stderr, "go2lean selftest:", err)
 		return 2
 	}
-	funcs := []string{"bad1", "ok1", "bad2", "ok2", "bad3", "ok3", "bad4", "callee", "bad5", "ok5", "win", "bad6", "ok6", "bad7"}
+	funcs := []string{"bad1", "ok1", "bad2", "ok2", "bad3", "ok3", "bad4", "callee", "bad5", "ok5", "win", "bad6", "ok6", "bad7", "bad8", "ok8"}
 	var w strings.Builder
 	var untranslated []string
 	translatePackage(dir, group{pkg: "t", stubs: "", funcs: funcs}, &w, &untranslated)
